@@ -7,5 +7,5 @@ CONSTANTS
   MaxReqs = 2
   MaxAcceptErrs = 1
 INVARIANTS LimitInv ConservationInv StopOrderInv AtMostOneMoreInv Refill
-PROPERTY Prompt
+PROPERTIES Prompt RefinesSlots
 CHECK_DEADLOCK FALSE
